@@ -47,7 +47,7 @@ InvDup == DupOnlyFault => (~D.ok /\ D.err = "DuplicateMapKey")
 
 Expect ==
   IF WFd THEN [accept |-> TRUE, val |-> <<Claims_ValueOf(Item)>>, err |-> "", pinerr |-> FALSE, errprop |-> "C12", judge |-> TRUE, reenc |-> <<Enc(Claims_ToCbor(D.x).x)>>]
-  ELSE [accept |-> FALSE, val |-> <<>>, err |-> D.err, pinerr |-> DupOnlyFault, errprop |-> "C12", judge |-> TRUE]
+  ELSE [accept |-> FALSE, val |-> <<>>, err |-> D.err, diag |-> DiagOf(D), text |-> ErrText(D), pinerr |-> DupOnlyFault, errprop |-> "C12", judge |-> TRUE]
 Strat2 == LET S == <<"w1", "w2", "w4", "w8", "indef", "indef2">> IN S[(Len(Enc(Item)) % 6) + 1]
 Emit == PrintT(ToJson([kind |-> "decode", props |-> <<"C18">>, ty |-> "ClaimsSet", reg |-> "", item |-> Item,
                        wires |-> <<Enc(Item), EncS(Item, Strat2)>>, expect |-> Expect]))
